@@ -207,7 +207,7 @@ class HSMCertificateV2ElementSGXAttestationKey(HSMCertificateV2Element):
             "name": self.name,
             "type": "sgx_attestation_key",
             "message": self._message.hex(),
-            "key": self.key.to_string("uncompressed").hex(),
+            "key": self._key.hex(),
             "auth_data": self.auth_data,
             "signature": self.signature,
             "signed_by": self.signed_by,
